@@ -202,6 +202,11 @@ def rejected_objects(fmt, rng):
         out.append(("occs_aminusb", d, exp, exp))
     else:
         out.append(("occs_aminusb", d, "PrepareDumpError", "returned"))
+    # an explicit occs_aminusb that is all zeros on open-shell occupations (what assigning equal occsa / occsb to restricted orbitals
+    # gives): present, hence needing conversion for the formats without a notion of it
+    if fmt != "fchk":
+        d, _ = wo.make(rng, fmt, nbasis_max=14, spin="aminusb_zero", contraction="segmented", ghosts=ghosts, lmax=1, virtuals=True)
+        out.append(("all-zero occs_aminusb", d, "PrepareDumpError", "returned"))
     # generalized contractions (not SP)
     for _ in range(20):
         d, f = wo.make(rng, fmt, nbasis_max=16, spin="restricted", contraction="generalized", ghosts=ghosts, lmax=1, virtuals=True)
